@@ -470,6 +470,26 @@ func (g *Gen) script(extra []string) string {
 	if len(lits) > 1 {
 		fmt.Fprintf(&b, "(assert (distinct %s))\n", strings.Join(lits, " "))
 	}
+	var litFacts []string
+	if g.funSeen["L_isdigits"] {
+		for _, s := range g.litOrder {
+			alld := len(s) > 0
+			for i := 0; i < len(s); i++ {
+				if s[i] < '0' || s[i] > '9' {
+					alld = false
+				}
+			}
+			if alld {
+				litFacts = append(litFacts, fmt.Sprintf("(assert (L_isdigits %s))", g.lits[s]))
+				if g.funSeen["L_numval"] && len(s) <= 18 {
+					v, _ := strconv.ParseInt(s, 10, 64)
+					litFacts = append(litFacts, fmt.Sprintf("(assert (= (L_numval %s) %d))", g.lits[s], v))
+				}
+			} else {
+				litFacts = append(litFacts, fmt.Sprintf("(assert (not (L_isdigits %s)))", g.lits[s]))
+			}
+		}
+	}
 	if e, ok := g.lits[""]; ok {
 		fmt.Fprintf(&b, "(assert (forall ((s Str)) (! (=> (= (str_len s) 0) (= s %s)) :pattern ((str_len s)))))\n", e)
 	}
@@ -477,6 +497,9 @@ func (g *Gen) script(extra []string) string {
 		b.WriteString(d + "\n")
 	}
 	for _, d := range g.decls {
+		b.WriteString(d + "\n")
+	}
+	for _, d := range litFacts {
 		b.WriteString(d + "\n")
 	}
 	for _, e := range extra {
